@@ -3,6 +3,7 @@ package checks
 import (
 	"math"
 	"math/big"
+	"reflect"
 
 	"github.com/trajectoryjp/spatial_id_go/v4/common"
 	"github.com/trajectoryjp/spatial_id_go/v4/common/spatial"
@@ -362,6 +363,33 @@ func checkC20(c *CaseC20, fl *Fails) {
 		want := new(big.Int).Binomial(c.N, c.K).Int64()
 		if int64(calls) != want {
 			fl.Add("combinations-count", "Combinations(%d,%d) visits %d subsets, C(n,k) = %d", c.N, c.K, calls, want)
+		}
+		// a callback may use the slice it is handed as a prefix (append a label to it): the enumeration must not depend
+		// on that. The run is cut off (sentinel panic) once it has visited more subsets than exist.
+		type tooMany struct{}
+		calls2, same := 0, true
+		func() {
+			defer func() {
+				if r := recover(); r != nil {
+					if _, ok := r.(tooMany); !ok {
+						panic(r)
+					}
+				}
+			}()
+			common.Combinations(c.N, c.K, func(p []int64) {
+				if calls2 < len(seen) && !reflect.DeepEqual(append([]int64(nil), p...), seen[calls2]) {
+					same = false
+				}
+				calls2++
+				if int64(calls2) > want+4 {
+					panic(tooMany{})
+				}
+				row := append(p, c.N+int64(calls2%3)+1)
+				_ = row
+			})
+		}()
+		if int64(calls2) != want || !same {
+			fl.Add("combinations-append", "Combinations(%d,%d) with a callback that appends to the slice it receives: %d visits (same subsets as without appending: %v), C(n,k) = %d", c.N, c.K, calls2, same, want)
 		}
 		for i, s := range seen {
 			if int64(len(s)) != c.K {
